@@ -157,7 +157,10 @@ func c14RunBatch(co *caseOut, dir string, units []c14Unit, jobs []c14Job, unitOf
 				co.violation("diff", "the compiler panics on a generated program: "+firstLine(err.Error()),
 					c14DiffInput{Unit: u, Note: "compile"}, err.Error())
 			} else {
-				co.extra["x_rejected"] = append(c14Strs(co.extra["x_rejected"]), u.Pkg+": "+firstLine(err.Error()))
+				// the generator emits only constructs the unchanged compiler accepts (and go build accepts this
+				// program, checked below): a rejection is a failure on one side only
+				co.violation("diff", "the compiler rejects a generated program of the dialect: "+firstLine(err.Error()),
+					c14DiffInput{Unit: u, Note: "compile"}, err.Error())
 			}
 			continue
 		}
